@@ -493,7 +493,12 @@ func (ms *MidState) reviseFileContractElement(fce types.FileContractElement, rev
 
 func (ms *MidState) resolveFileContractElement(fce types.FileContractElement, valid bool, txid types.TransactionID) {
 	fced := ms.recordFileContractElement(fce.ID)
-	fced.FileContractElement = fce.Copy()
+	if fced.Revision == nil {
+		// if the contract was revised earlier in this block, fce holds the
+		// revised contract; the diff must keep the element as it was before
+		// the block, so that reverting restores the correct leaf
+		fced.FileContractElement = fce.Copy()
+	}
 	fced.Resolved = true
 	fced.Valid = valid
 	ms.spends[fce.ID] = txid
